@@ -36,6 +36,7 @@ type Contract struct {
 	Results  []string
 	Requires []Clause
 	Ensures  []Clause
+	Panics   []Clause // the function ends in a panic (no normal return) exactly when one of these holds at entry
 	Modifies []CExpr
 	ModAll   bool
 	Pure     bool
@@ -98,6 +99,7 @@ type Contracts struct {
 	Ghosts  map[string]*Ghost
 	GInvs   []*GlobalInv
 	Lemmas  []*Lemma
+	AllowGlobalWrite []ImmutDecl // package-level variables that may be written outside init (debug switches), with the reason
 	ElemPtr   []ImmutDecl // struct types whose pointers always point into a slice's backing array (&s[i])
 	Immutable []ImmutDecl // heap components that no code writes after construction (checked by SSA scan)
 	Sources []string
@@ -111,7 +113,7 @@ var clauseKeywords = map[string]bool{
 	"ghost": true, "spec": true, "global-invariant": true, "func": true, "extern": true, "iface": true,
 	"requires": true, "ensures": true, "modifies": true, "pure": true, "trusted": true, "inline": true,
 	"noinline": true, "loop": true, "invariant": true, "decreases": true, "lemma": true, "assume": true,
-	"show": true, "props": true, "loopmodifies": true, "split": true, "pureif": true, "immutable": true, "protects": true, "elemptr": true, "step": true,
+	"show": true, "props": true, "loopmodifies": true, "split": true, "pureif": true, "immutable": true, "protects": true, "elemptr": true, "step": true, "panics": true, "allow-global-write": true,
 }
 
 // logical lines: keyword + rest (continuations joined)
@@ -290,6 +292,12 @@ func (cs *Contracts) LoadFile(path, pkgPath string) error {
 			}
 			cs.Specs[m[1]] = &SpecMacro{Name: m[1], Pkg: pkgPath, Params: parseSpecParams(m[2]), Ret: m[3], Body: body}
 			cur, curLoop, curLemma = nil, nil, nil
+		case "allow-global-write":
+			f := strings.Fields(l.rest)
+			if len(f) > 0 {
+				cs.AllowGlobalWrite = append(cs.AllowGlobalWrite, ImmutDecl{pkgPath, f[0]})
+			}
+			cur, curLoop, curLemma = nil, nil, nil
 		case "elemptr":
 			for _, f := range strings.Fields(l.rest) {
 				cs.ElemPtr = append(cs.ElemPtr, ImmutDecl{pkgPath, f})
@@ -363,6 +371,15 @@ func (cs *Contracts) LoadFile(path, pkgPath string) error {
 				return fail(l, "step outside loop")
 			}
 			curLoop.Steps = append(curLoop.Steps, c)
+		case "panics":
+			c, err := parseLabeled(l.rest)
+			if err != nil {
+				return fail(l, "%v", err)
+			}
+			if cur == nil {
+				return fail(l, "panics outside function")
+			}
+			cur.Panics = append(cur.Panics, c)
 		case "requires", "ensures", "invariant":
 			c, err := parseLabeled(l.rest)
 			if err != nil {
